@@ -89,10 +89,13 @@ class Lexer:
         """
         \\b\\d+(\\.?\\d+)?\\b
         """
-        if '.' in t.value:
-            t.value = float(t.value)
-        else:
-            t.value = int(t.value)
+        try:
+            if '.' in t.value:
+                t.value = float(t.value)
+            else:
+                t.value = int(t.value)
+        except ValueError:
+            raise exceptions.YaqlLexicalException(t.value, t.lexpos)
         return t
 
     @staticmethod
@@ -120,7 +123,10 @@ class Lexer:
         """
         '([^'\\\\]|\\\\.)*'
         """
-        t.value = decode_escapes(t.value[1:-1])
+        try:
+            t.value = decode_escapes(t.value[1:-1])
+        except ValueError:
+            raise exceptions.YaqlLexicalException(t.value, t.lexpos)
         return t
 
     @staticmethod
@@ -128,7 +134,10 @@ class Lexer:
         """
         "([^"\\\\]|\\\\.)*"
         """
-        t.value = decode_escapes(t.value[1:-1])
+        try:
+            t.value = decode_escapes(t.value[1:-1])
+        except ValueError:
+            raise exceptions.YaqlLexicalException(t.value, t.lexpos)
         t.type = 'QUOTED_STRING'
         return t
 
